@@ -12,9 +12,8 @@ result, when no back-reference / group test reads a slot owned by an atomized ru
   `map`, `filter`; a dominated list has the same `head?` (so `firstOnly`, emptiness, the condition of a
   conditional are the same).
 * `dom_sem`: `Dom (sem c e st) (sem c (atomizeP br e hard) st)` for every constructor of the semantics —
-  loops (greedy and lazy, every bound: `repLoop_dom`), look-aheads, atomic groups, conditionals. A look-behind
-  is left as it is by `atomizeP` (its body stays at stage S3); `behindOne_dom` / `semBehindAlts_dom_of` are
-  the closure lemmas its backward reading would need.
+  loops (greedy and lazy, every bound: `repLoop_dom`), look-aheads, look-behinds (`behindOne_dom`,
+  `semBehindAlts_dom_of` for the backward reading of the body), atomic groups, conditionals.
 * `atomizeP_head`: the two trees have the same first result.
 -/
 namespace Fancy
@@ -640,25 +639,110 @@ theorem dom_sem : ∀ (e : Expr) (hard : Bool), s5ok br e hard = true → wellSh
         · simp only [hopt, Bool.false_eq_true, if_false, Bool.and_eq_true] at hok hU ⊢
           exact dom_sem e true hok.1 hw hnr hU st' hg'
       | look e la =>
+        rw [atomizeP]; rw [atzSlots] at hU
+        simp only [isHard, Bool.not_true, Bool.and_false, Bool.false_eq_true, ↓reduceIte] at hU ⊢
         simp only [wellShaped] at hw
         simp only [noRead] at hnr
+        have hoke : s5ok br e false = true := by
+          cases la with
+          | ahead =>
+            rw [s5ok] at hok
+            simp only [isHard, Bool.not_true, Bool.and_false, Bool.false_eq_true, ↓reduceIte, Bool.and_eq_true] at hok
+            exact hok.1
+          | aheadNeg =>
+            rw [s5ok] at hok
+            simp only [isHard, Bool.not_true, Bool.and_false, Bool.false_eq_true, ↓reduceIte] at hok
+            exact hok
+          | behind =>
+            rw [s5ok] at hok
+            simp only [isHard, Bool.not_true, Bool.and_false, Bool.false_eq_true, ↓reduceIte, Bool.and_eq_true] at hok
+            exact hok.1.1
+          | behindNeg =>
+            rw [s5ok] at hok
+            simp only [isHard, Bool.not_true, Bool.and_false, Bool.false_eq_true, ↓reduceIte, Bool.and_eq_true] at hok
+            exact hok.1
+        have ihe : ∀ st', st'.Good c n → Dom U (sem c e st') (sem c (atomizeP br e false) st') :=
+          fun st' hg' => dom_sem e false hoke hw hnr hU st' hg'
+        -- the look-behind reading of the body
+        have hbeh : ∀ st', st'.Good c n → Dom U (semBehind c e st') (semBehind c (atomizeP br e false) st') := by
+          intro st' hg'
+          by_cases he : (!false && !isHard br e) = true
+          · rw [atomizeP_easy br e false he]; exact DomAcc.refl _ _ _
+          · cases e with
+            | alt es =>
+              have hA : atomizeP br (.alt es) false = .alt (es.map fun e => atomizeP br e false) := by
+                rw [atomizeP]; simp only [he, Bool.false_eq_true, ↓reduceIte, atomizeAlts_eq_map]
+              rw [hA]
+              simp only [semBehind]
+              rw [s5ok.eq_def] at hoke; rw [atzSlots.eq_def] at hU
+              simp only [he, Bool.false_eq_true, ↓reduceIte, Bool.and_eq_true] at hoke hU
+              simp only [wellShaped, Bool.and_eq_true] at hw
+              simp only [noRead] at hnr
+              have hnrm := noReadAll_mem es hnr
+              refine semBehindAlts_dom_of c n U _ es (fun e' he' st2 hg2 => ?_) st' hg'
+              have h1 := List.sizeOf_lt_of_mem he'
+              exact dom_sem e' false (s5okAlts_mem br false es hoke.2 e' he') (wellShapedAll_mem' es hw.2 e' he')
+                (hnrm e' he') (fun i hi => hU i (mem_atzSlotsAlts br false es e' he' i hi)) st2 hg2
+            | concat es =>
+              have : ∀ x, semBehind c (.concat x) = behindOne (sem c (.concat x)) := fun x => by
+                funext s; simp only [semBehind]
+              have hA : ∃ y, atomizeP br (.concat es) false = .concat y := by
+                rw [atomizeP]; simp only [he, Bool.false_eq_true, ↓reduceIte]; exact ⟨_, rfl⟩
+              obtain ⟨y, hy⟩ := hA
+              rw [hy, this, this, ← hy]
+              exact behindOne_dom c n U _ _ ihe st' hg'
+            | group g e1 =>
+              have hA : atomizeP br (.group g e1) false = .group g (atomizeP br e1 false) := by
+                rw [atomizeP]; simp only [he, Bool.false_eq_true, ↓reduceIte]
+              have h1 : semBehind c (.group g e1) = behindOne (sem c (.group g e1)) := by funext s; simp only [semBehind]
+              have h2 : semBehind c (.group g (atomizeP br e1 false)) = behindOne (sem c (.group g (atomizeP br e1 false))) := by
+                funext s; simp only [semBehind]
+              rw [hA, h1, h2, ← hA]
+              exact behindOne_dom c n U _ _ ihe st' hg'
+            | «repeat» e1 lo hi gr =>
+              have hA : ∃ y, atomizeP br (.repeat e1 lo hi gr) false = .repeat y lo hi gr := by
+                rw [atomizeP]; simp only [he, Bool.false_eq_true, ↓reduceIte]; exact ⟨_, rfl⟩
+              obtain ⟨y, hy⟩ := hA
+              have h1 : ∀ x, semBehind c (.repeat x lo hi gr) = behindOne (sem c (.repeat x lo hi gr)) := fun x => by
+                funext s; simp only [semBehind]
+              rw [hy, h1, h1, ← hy]
+              exact behindOne_dom c n U _ _ ihe st' hg'
+            | look e1 la1 =>
+              have hA : atomizeP br (.look e1 la1) false = .look (atomizeP br e1 false) la1 := by
+                rw [atomizeP]; simp only [isHard, Bool.not_true, Bool.and_false, Bool.false_eq_true, ↓reduceIte]
+              have h1 : ∀ x, semBehind c (.look x la1) = behindOne (sem c (.look x la1)) := fun x => by
+                funext s; simp only [semBehind]
+              rw [hA, h1, h1, ← hA]
+              exact behindOne_dom c n U _ _ ihe st' hg'
+            | atomic e1 =>
+              have hA : atomizeP br (.atomic e1) false = .atomic (atomizeP br e1 false) := by
+                rw [atomizeP]; simp only [isHard, Bool.not_true, Bool.and_false, Bool.false_eq_true, ↓reduceIte]
+              have h1 : ∀ x, semBehind c (.atomic x) = behindOne (sem c (.atomic x)) := fun x => by
+                funext s; simp only [semBehind]
+              rw [hA, h1, h1, ← hA]
+              exact behindOne_dom c n U _ _ ihe st' hg'
+            | cond c1 y1 n1 =>
+              have hA : ∃ a b d, atomizeP br (.cond c1 y1 n1) false = .cond a b d := by
+                rw [atomizeP]; simp only [isHard, Bool.not_true, Bool.and_false, Bool.false_eq_true, ↓reduceIte]
+                exact ⟨_, _, _, rfl⟩
+              obtain ⟨a, b, d, hy⟩ := hA
+              have h1 : ∀ x y z, semBehind c (.cond x y z) = behindOne (sem c (.cond x y z)) := fun x y z => by
+                funext s; simp only [semBehind]
+              rw [hy, h1, h1, ← hy]
+              exact behindOne_dom c n U _ _ ihe st' hg'
+            | _ =>
+              rw [atomizeP.eq_def]
+              simp only [he, Bool.false_eq_true, ↓reduceIte]
+              exact DomAcc.refl _ _ _
         cases la with
         | ahead =>
-          rw [atomizeP]; rw [atzSlots] at hU; rw [s5ok] at hok
-          simp only [isHard, Bool.not_true, Bool.and_false, Bool.false_eq_true, ↓reduceIte, Bool.and_eq_true] at hU hok ⊢
-          simp only [sem, (dom_sem e false hok.1 hw hnr hU st hg).firstOnly]; exact DomAcc.refl _ _ _
+          simp only [sem, (ihe st hg).firstOnly]; exact DomAcc.refl _ _ _
         | aheadNeg =>
-          rw [atomizeP]; rw [atzSlots] at hU; rw [s5ok] at hok
-          simp only [isHard, Bool.not_true, Bool.and_false, Bool.false_eq_true, ↓reduceIte] at hU hok ⊢
-          simp only [sem, (dom_sem e false hok hw hnr hU st hg).isEmpty]; exact DomAcc.refl _ _ _
+          simp only [sem, (ihe st hg).isEmpty]; exact DomAcc.refl _ _ _
         | behind =>
-          rw [atomizeP.eq_def]
-          simp only [hdel, Bool.false_eq_true, ↓reduceIte]
-          exact DomAcc.refl _ _ _
+          simp only [sem, (hbeh st hg).firstOnly]; exact DomAcc.refl _ _ _
         | behindNeg =>
-          rw [atomizeP.eq_def]
-          simp only [hdel, Bool.false_eq_true, ↓reduceIte]
-          exact DomAcc.refl _ _ _
+          simp only [sem, (hbeh st hg).isEmpty]; exact DomAcc.refl _ _ _
       | atomic e =>
         rw [atomizeP]; rw [s5ok] at hok; rw [atzSlots] at hU
         simp only [isHard, Bool.not_true, Bool.and_false, Bool.false_eq_true, ↓reduceIte, Bool.and_eq_true] at hok hU ⊢
